@@ -31,8 +31,9 @@ MIN_CLASS_FRACTION = {'judged': 0.8}
 
 
 def known_f13(case):
-    """F13: colored finite differences with step_calc='rel_element' use the step of element 0 for every column."""
-    return bool(case.get('colored')) and case['method'] == 'fd' and case['opts'].get('step_calc') == 'rel_element'
+    """F13: colored finite differences with a relative step_calc use ONE step per color (taken from one variable /
+    element 0) for all columns of the color, so columns of other variables / elements get the wrong step."""
+    return bool(case.get('colored')) and case['method'] == 'fd' and case['opts'].get('step_calc', 'abs') != 'abs'
 
 
 def known_f20(case):
